@@ -52,6 +52,11 @@ impl<W: Write + Send, R: Read + Send> DapTransport for Transport<W, R> {
         }
 
         let len = content_length.ok_or_else(|| anyhow!("Missing Content-Length header"))?;
+        // the length comes from the peer, don't allocate whatever it says
+        const MAX_MESSAGE_LEN: usize = 64 * 1024 * 1024;
+        if len > MAX_MESSAGE_LEN {
+            return Err(anyhow!("DAP message is too large: {len} bytes"));
+        }
         let mut buf = vec![0u8; len];
         self.reader.read_exact(&mut buf)?;
         let msg: Value = serde_json::from_slice(&buf)?;
